@@ -298,6 +298,21 @@ class Module:
         return "Module(%s)" % self.name
 
 
+class OpaqueVecApp:
+    """`name(arg)`: the result of an opaque vector-to-vector function (equality = congruence)."""
+    __slots__ = ("name", "arg")
+
+    def __init__(self, name, arg):
+        self.name, self.arg = name, arg
+
+    @property
+    def n(self):
+        return self.arg.n
+
+    def __repr__(self):
+        return "%s(<vec>)" % self.name
+
+
 class Opaque:
     """A value the engine carries around but cannot look into (e.g. 'rest' columns)."""
     __slots__ = ("term", "what")
